@@ -1,10 +1,10 @@
 """C02 — a version-2 dump yields exactly its records, in order, and its thread map."""
 from .. import vlib
-from ..translate import tr_kevent
+from ..translate import tr_kevent, tr_container
 from ..harness import dumps as D
 from . import container_common as cc
 
-TRANSLATORS = [tr_kevent.translate]
+TRANSLATORS = [tr_kevent.translate, tr_container.translate]
 MODEL_TARGETS = ['theories/ContainerCases.vo']
 PROOF_TARGETS = ['props/C02.vo']
 PROP_FILE = 'props/C02.v'
